@@ -498,6 +498,10 @@ FragSeqs == <<
     ExprS(Arr(<<C1(Id("string"), Id("a")), C1(Id("string"), Id("b")), C1(Id("string"), Raw("0.0", TRUE))>>))>>,
   <<Def("z", Raw("0.0", TRUE)), Def("f", Fn0(<<Ret(C1(Id("string"), Bin("*", Id("z"), Raw("-1.0", FALSE))))>>)), ExprS(C1(Id("string"), Raw("-0.0", TRUE))),
     ExprS(C1(Id("string"), Raw("0.0", TRUE))), ExprS(Arr(<<C0(Id("f")), C1(Id("string"), Id("z"))>>))>>,
+  \* a fragment ending in an if statement (without and with else) or a loop whose last inner statement is an expression:
+  \* only a final expression statement gives a fragment its value, on every path through the other statements it is undefined
+  <<Def("x", I(0)), If(Id("x"), <<ExprS(I(1))>>, <<>>), Def("y", I(5)), If(Id("y"), <<ExprS(I(2))>>, <<ExprS(I(3))>>), ExprS(Bin("+", Id("x"), Id("y")))>>,
+  <<Global(<<"gv">>), If(Id("gv"), <<ExprS(I(1))>>, <<>>), Def("z", I(7)), For(<<Def("i", I(0))>>, Bin("<", Id("i"), I(2)), <<Inc("i")>>, <<ExprS(Id("i"))>>), If(Id("z"), <<ExprS(Id("z"))>>, <<>>)>>,
   \* (a constant declaration emits no code: a fragment ending in one reports whatever value the statement before left, so it is not put last)
   <<Var("len"), Const("int", I(3)), Asg("len", Fn(<<"v">>, FALSE, <<Ret(S("mine"))>>)), ExprS(C1(Id("len"), S("ab"))), ExprS(Arr(<<Id("int"), C1(Id("len"), Arr(<<>>))>>))>>
 >>
